@@ -11,6 +11,21 @@ ROWS = {
          "DESIGN.md §3.2 Stream, §7 C03",
          "symbolic MAC (verifies iff bound to the same stream position, AD and bytes); libsodium-sys as byte reference; counter classes preset via hook H1",
          "TLA+ spec + TLC model checking; spec->impl behaviour replay; impl->spec trace validation"),
+ "C14": ("model_checking",
+         "TLC checks TypeKernelAgree, NoResidue, NoStray, NoLeak, ContentsStable on Protected.tla (type state x per-page kernel state x allocator, Linux mprotect/mlock semantics) for every operation sequence within the bounds; every behaviour of the generation model (plus random long ones from TLC -simulate) is replayed on the real containers in forked children, comparing /proc/self/smaps page rights and VM_LOCKED, guard pages, contents and VmLck after every step and probing raw accesses for faults",
+         "DESIGN.md §3.2 Protected, §7 C14",
+         "Linux x86-64, 4 KiB pages; kernel semantics as modelled; glibc allocator; depth-bounded histories over two handles",
+         "TLA+ spec + TLC model checking; spec->impl behaviour replay against the kernel's view"),
+ "C15": ("model_checking",
+         "TLC checks WipeBeforeRelease, ReleasedOnce, ReleasedIffDead on Protected.tla; the wipe-focused behaviours (fill / resize up and down / clone / lock / unlock / drop, deeper bound) are replayed with the allocator observers of hook H2: fresh memory is scrubbed at allocate so any non-zero byte seen at release was written through the container",
+         "DESIGN.md §3.2 Protected, §7 C15",
+         "hook H2 observes the block immediately before it is handed to free(); Vec capacity policy of the pinned toolchain as modelled (mismatch is a tool error)",
+         "TLA+ spec + TLC model checking; spec->impl behaviour replay with allocator observers"),
+ "C19": ("model_checking",
+         "TLC checks RefusalIsError and the C14/C15 invariants on Protected.tla with a lock budget k (the k+1-th and later mlock refused); every behaviour of the refusal model is replayed under an LD_PRELOAD mlock interposer: result class per call (Ok/Err/Panic) must equal the model's (Err for Result-returning operations), bystander regions keep their page state, everything wiped and unlocked at the end",
+         "DESIGN.md §3.2 Protected, §7 C19",
+         "refusal injected by interposing mlock(); operations without a Result (clone, resize) may panic by design and must leak nothing",
+         "TLA+ spec + TLC model checking; fault-injected behaviour replay"),
 }
 NOT_YET = "check not built yet (work in progress; see DESIGN.md section 7)"
 
